@@ -32,6 +32,7 @@ from copy import deepcopy
 
 import impl
 import gens
+import sccgen as G
 from wire import Ok, Err, Some, oracle_batch
 from lxml import etree
 from pycaption import (DFXPWriter, DFXPReader, SRTReader, WebVTTReader, SAMIReader, SCCReader, MicroDVDReader,
@@ -747,6 +748,72 @@ def stamp_us(stamp):
     return None
 
 
+def rand_scc_doc(rng):
+    """an SCC document from the independent CEA-608 encoder (harness/sccgen.py): 1-4 captions in pop-on (mostly), roll-up
+    or paint-on mode; 1-3 rows per caption - adjacent or not, in any order; every row opened by a plain / indented /
+    coloured / underlined / ITALIC preamble address code; tab offsets; mid-row codes (italics on, italics underline,
+    plain, colours) between the words; control codes doubled or single.  Italics are regularly left ON when the
+    next row is addressed or the caption ends."""
+    lines, frame = [], 30
+    doubled = rng.random() < 0.8
+    letters = "ABCDEFGHIJKLMNOPQRSTUVWXYZabcdefghijklmnopqrstuvwxyz"
+    for _ in range(rng.randint(1, 4)):
+        mode = rng.choice(["pop", "pop", "pop", "pop", "roll", "paint"])
+        ws = []
+        if mode == "pop":
+            ws += G.dbl([G.ENM, G.RCL] if rng.random() < 0.8 else [G.RCL], doubled)
+        elif mode == "roll":
+            ws += G.dbl([rng.choice([G.RU2, G.RU3, G.RU4]), G.CR], doubled)
+        else:
+            ws += G.dbl([G.RDC], doubled)
+        rows = sorted(rng.sample(range(1, 16), rng.randint(1, 3)))
+        if rng.random() < 0.3:
+            rng.shuffle(rows)
+        if mode == "roll":
+            rows = rows[:1]
+        for r in rows:
+            kind = rng.random()
+            if kind < 0.4:
+                p = G.pac(r, italics=True, underline=rng.random() < 0.2)
+            elif kind < 0.6:
+                p = G.pac(r, indent=rng.choice([4, 8, 12]), underline=rng.random() < 0.2)
+            else:
+                p = G.pac(r, color=rng.choice([0, 0, 0, 1, 3, 6]), underline=rng.random() < 0.15)
+            ws += G.dbl([p], doubled)
+            if rng.random() < 0.2:
+                ws += G.dbl([G.tab(rng.randint(1, 3))], doubled)
+            for seg in range(rng.randint(1, 3)):
+                if seg or rng.random() < 0.3:
+                    ws += G.dbl([G.midrow(rng.choice([14, 14, 14, 15, 0, 0, 1, 2, 8]))], doubled)
+                word = "".join(rng.choice(letters) for _ in range(rng.randint(1, 6)))
+                ws += G.text_words(word + (" " if rng.random() < 0.5 else ""))
+        if mode == "pop":
+            ws += G.dbl([G.EDM, G.EOC] if rng.random() < 0.8 else [G.EOC], doubled)
+        lines.append((G.timecode(frame, False), ws))
+        frame += len(ws) + rng.randint(20, 90)
+        if rng.random() < 0.7:
+            lines.append((G.timecode(frame, False), G.dbl([G.EDM], doubled)))
+            frame += rng.randint(5, 40)
+    return G.doc(lines)
+
+
+SCC_FIXED = [
+    # italic PACs on non-adjacent rows inside one caption, then another caption (seeded round 3)
+    [[G.ENM, G.ENM, G.RCL, G.RCL, G.pac(1, italics=True), G.pac(1, italics=True)] + G.text_words("AB")
+     + [G.pac(5, italics=True), G.pac(5, italics=True)] + G.text_words("AB") + [G.EDM, G.EDM, G.EOC, G.EOC],
+     [G.ENM, G.ENM, G.RCL, G.RCL, G.pac(15), G.pac(15)] + G.text_words("AB") + [G.EDM, G.EDM, G.EOC, G.EOC]],
+    # three rows: mid-row italics, then a plain PAC elsewhere, italics never switched off
+    [[G.ENM, G.ENM, G.RCL, G.RCL, G.pac(2), G.pac(2)] + G.text_words("one ") + [G.MID_ITALICS, G.MID_ITALICS] + G.text_words("two")
+     + [G.pac(9, indent=8), G.pac(9, indent=8)] + G.text_words("three") + [G.pac(4, italics=True), G.pac(4, italics=True)]
+     + G.text_words("four") + [G.EDM, G.EDM, G.EOC, G.EOC],
+     [G.ENM, G.ENM, G.RCL, G.RCL, G.pac(14), G.pac(14)] + G.text_words("next") + [G.EDM, G.EDM, G.EOC, G.EOC]],
+    # italics on at the very end of a caption, plain caption after it
+    [[G.ENM, G.ENM, G.RCL, G.RCL, G.pac(15), G.pac(15)] + G.text_words("ab ") + [G.MID_ITALICS, G.MID_ITALICS] + G.text_words("cd")
+     + [G.EDM, G.EDM, G.EOC, G.EOC],
+     [G.RCL, G.RCL, G.pac(15), G.pac(15)] + G.text_words("ef") + [G.EDM, G.EDM, G.EOC, G.EOC]],
+]
+
+
 def reader_sets(ctx):
     rng = ctx.rng
     out = []
@@ -792,6 +859,12 @@ def reader_sets(ctx):
             '<p begin="00:00:03.000" end="00:00:04.000" region="r8">%s</p></div><div xml:lang="fr">'
             '<p begin="00:00:01.000" end="00:00:02.000">%s</p></div></body></tt>'
             % (i, qesc(f), i2, i, i, bp % {"a": esc(a), "b": esc(b), "f": qesc(f), "i": i, "i2": i2}, esc(b), esc(b)))))
+    for fixed in SCC_FIXED:
+        d = G.doc([(G.timecode(30 + 150 * k, False), ws) for k, ws in enumerate(fixed)] + [(G.timecode(30 + 150 * len(fixed), False), [G.EDM, G.EDM])])
+        out.append(("scc-generated", lambda s=d: SCCReader().read(s)))
+    for _ in range(ctx.n(60, 1200)):
+        d = rand_scc_doc(rng)
+        out.append(("scc-generated", lambda s=d: SCCReader().read(s)))
     basic = "abcdefghij klmnop"
     for _ in range(ctx.n(3, 30)):
         txt = "".join(rng.choice(basic) for _ in range(rng.randint(3, 25))).strip() or "x"
@@ -927,6 +1000,12 @@ def stream_documents(ctx, acc):
                 acc.res["violations"].append(dict({"kind": "write-raises", "what": "%s writer raised %s" % (wname, impl.ERR_NAMES.get(out.code)),
                                                    "input": inp}, **rp))
                 continue
+            if src == "scc-generated" and wname == "main":
+                nodes = [n for l in langs for c in cs.get_captions(l) for n in c.nodes]
+                acc.count("D_scc_generated_captions", sum(len(cs.get_captions(l)) for l in langs))
+                acc.count("D_scc_generated_style_nodes", sum(1 for n in nodes if n.type_ == CaptionNode.STYLE))
+                acc.count("D_scc_generated_captions_with_several_layouts",
+                          sum(1 for l in langs for c in cs.get_captions(l) if len({id(n.layout_info) for n in c.nodes}) > 1))
             if judge_document(acc, cs, wname, kw, force, out.v, inp, rp):
                 acc.res["nontrivial"].add(("D", src, wname, out.v))
                 acc.count("D_ok_" + src)
